@@ -58,14 +58,15 @@ type vxChipDef struct {
 	Bus    int16
 	Addr   int32
 	Full   string // platform string fan2go derives (hwmon.computeIdentifier)
+	BusNr  int16
 }
 
 // chip 0 is always the chip the selector names; names are labels only
 var vxChipDefs = []vxChipDef{
-	{"nct6798", 1, 0x290, "nct6798-isa-0290"},
-	{"it8620", 1, 0xa30, "it8620-isa-0a30"},
-	{"coretemp", 1, 0x000, "coretemp-isa-0000"},
-	{"amdgpu", 2, 0x300, "amdgpu-pci-0300"},
+	{"nct6798", 1, 0x290, "nct6798-isa-0290", 0},
+	{"it8620", 1, 0xa30, "it8620-isa-0a30", 0},
+	{"coretemp", 1, 0x000, "coretemp-isa-0000", 0},
+	{"amdgpu", 2, 0x300, "amdgpu-pci-0300", 0},
 }
 
 type vxSel struct {
@@ -108,13 +109,15 @@ func vxVal(chip int, kind string, n int) int {
 
 // vxDir returns (creating it on first use) the directory of chip i with shape s: exactly the files of the shape.
 func vxDir(i int, s vxShape) string {
-	k := fmt.Sprintf("%s_%s", vxChipDefs[i].Prefix, s.key())
+	k := fmt.Sprintf("%d_%s_%s", i, vxChipDefs[i].Full, s.key())
 	if d, ok := vxDirs[k]; ok {
 		return d
 	}
 	d := filepath.Join(vxBase, k, "hwmon"+fmt.Sprint(i))
 	vxMust(os.MkdirAll(d, 0755))
-	wr := func(name string, v int) { vxMust(os.WriteFile(filepath.Join(d, name), []byte(fmt.Sprintf("%d\n", v)), 0644)) }
+	wr := func(name string, v int) {
+		vxMust(os.WriteFile(filepath.Join(d, name), []byte(fmt.Sprintf("%d\n", v)), 0644))
+	}
 	vxMust(os.WriteFile(filepath.Join(d, "name"), []byte(vxChipDefs[i].Prefix+"\n"), 0644))
 	for _, n := range s.Fans {
 		wr(fmt.Sprintf("fan%d_input", n), vxVal(i, "rpm", n))
@@ -137,7 +140,7 @@ func vxSpecs(c *vxCase) []gosensors.ChipSpec {
 	specs := make([]gosensors.ChipSpec, 0, len(c.Order))
 	for _, i := range c.Order {
 		s := c.Shapes[i]
-		cs := gosensors.ChipSpec{Prefix: vxChipDefs[i].Prefix, BusType: vxChipDefs[i].Bus, BusNr: 0, Addr: vxChipDefs[i].Addr, Path: vxDir(i, s), Fans: s.Fans}
+		cs := gosensors.ChipSpec{Prefix: vxChipDefs[i].Prefix, BusType: vxChipDefs[i].Bus, BusNr: vxChipDefs[i].BusNr, Addr: vxChipDefs[i].Addr, Path: vxDir(i, s), Fans: s.Fans}
 		for j, st := range s.Temps {
 			if st == 1 {
 				cs.Temps = append(cs.Temps, j+1)
@@ -154,6 +157,8 @@ func vxPattern(p string) string {
 	switch p {
 	case "full":
 		return vxChipDefs[0].Full
+	case "anchored":
+		return "^" + vxChipDefs[0].Full + "$"
 	case "prefix":
 		return vxChipDefs[0].Prefix
 	case "upper":
@@ -177,7 +182,7 @@ type vxBound struct {
 // temperature inputs that have an input file, ascending by number; rpmChannel = the fan's number;
 // PWM and enable come from pwmChannel, which defaults to the rpm channel.
 func vxRefBind(shapes []vxShape, sel vxSel) vxBound {
-	pat := strings.ToLower(vxPattern(sel.Pattern))
+	pat := strings.TrimSuffix(strings.TrimPrefix(strings.ToLower(vxPattern(sel.Pattern)), "^"), "$")
 	hit := -1
 	for i := range shapes {
 		if strings.Contains(vxChipDefs[i].Full, pat) {
@@ -802,4 +807,88 @@ func TestVX_C17(t *testing.T) {
 	rep.Count("trees", trees)
 	rep.Note(fmt.Sprintf("per tree: %d entries (3 platform spellings x {index,rpmChannel} x 1..4 x pwmChannel {default,1,2,3}; 3 spellings x sensor index 1..4; unknown platform) "+
 		"x every permutation of the chip enumeration order, plus one configuration with an entry for every chip; non-trivial = more than one chip or the device exists", len(sels)))
+}
+
+// ---------------------------------------------------------------- bus families
+//
+// Several chips of the SAME driver that differ only in bus number / address (second drivetemp disk, two Super-I/O chips,
+// several HID devices ...): the platform string is the lm-sensors chip name (<prefix>-<bus>-<nr/addr>), and an entry that
+// gives a chip's full name must bind to exactly that chip, whatever the enumeration order.
+
+var vxBusFamilies = map[string][]vxChipDef{
+	"scsi":         {{"drivetemp", 8, 0, "drivetemp-scsi-0-0", 0}, {"drivetemp", 8, 0, "drivetemp-scsi-1-0", 1}, {"drivetemp", 8, 1, "drivetemp-scsi-0-1", 0}, {"drivetemp", 8, 0, "drivetemp-scsi-2-0", 2}},
+	"hid":          {{"corsaircpro", 6, 1, "corsaircpro-hid-3-1", 3}, {"corsaircpro", 6, 3, "corsaircpro-hid-1-3", 1}, {"corsaircpro", 6, 2, "corsaircpro-hid-3-2", 3}, {"corsaircpro", 6, 1, "corsaircpro-hid-2-1", 2}},
+	"isa":          {{"nct6798", 1, 0x290, "nct6798-isa-0290", 0}, {"nct6798", 1, 0x290, "nct6798-isa-1290", 1}, {"nct6798", 1, 0xa30, "nct6798-isa-0a30", 0}, {"nct6798", 1, 0x029, "nct6798-isa-0029", 0}},
+	"pci":          {{"amdgpu", 2, 0x300, "amdgpu-pci-0300", 0}, {"amdgpu", 2, 0x300, "amdgpu-pci-1300", 1}, {"amdgpu", 2, 0x030, "amdgpu-pci-0030", 0}, {"amdgpu", 2, 0x003, "amdgpu-pci-3003", 3}},
+	"acpi+virtual": {{"acpitz", 5, 0, "acpitz-acpi-0", 0}, {"acpitz", 5, 0, "acpitz-acpi-1", 1}, {"thinkpad", 4, 0, "thinkpad-virtual-0", 0}, {"thinkpad", 4, 7, "thinkpad-virtual-2", 2}},
+}
+
+func TestVX_C17bus(t *testing.T) {
+	rep := mc.NewReport("C17", "cmd/sensor/bus-families")
+	defer rep.Write()
+	vxBase = fmt.Sprintf("/dev/shm/verif-c17b-%d", os.Getpid())
+	vxMust(os.MkdirAll(vxBase, 0755))
+	defer os.RemoveAll(vxBase)
+	st := &vxState{rep: rep, classes: map[string]int{}}
+	saved := vxChipDefs
+	defer func() { vxChipDefs = saved }()
+	shape := vxShape{Fans: []int{1, 2}, Temps: [3]int{1, 1, 0}}
+	sels := []vxSel{}
+	for _, p := range []string{"full", "anchored"} {
+		sels = append(sels, vxSel{Kind: "sensor", Pattern: p, N: 1}, vxSel{Kind: "sensor", Pattern: p, N: 2}, vxSel{Kind: "sensor", Pattern: p, N: 3},
+			vxSel{Kind: "fan", Pattern: p, By: "rpmChannel", N: 2}, vxSel{Kind: "fan", Pattern: p, By: "index", N: 1}, vxSel{Kind: "fan", Pattern: p, By: "rpmChannel", N: 3})
+	}
+	perms := vxPerms(4)
+	var fams []string
+	for f := range vxBusFamilies {
+		fams = append(fams, f)
+	}
+	sort.Strings(fams)
+	type busCase struct {
+		Family string `json:"family"`
+		Target int    `json:"target"`
+		Case   vxCase `json:"case"`
+	}
+	var rc busCase
+	replay := mc.ReplayCase(&rc)
+	idx := 0
+	var n int64
+	for _, fam := range fams {
+		defs := vxBusFamilies[fam]
+		for target := range defs {
+			// rotate: the named chip is chip 0
+			rot := append(append([]vxChipDef{}, defs[target:]...), defs[:target]...)
+			for _, sel := range sels {
+				for _, order := range perms {
+					idx++
+					if replay {
+						if rc.Family != fam || rc.Target != target || rc.Case.Sel != sel || fmt.Sprint(rc.Case.Order) != fmt.Sprint(order) {
+							continue
+						}
+					} else if !mc.Mine(idx) {
+						continue
+					}
+					vxChipDefs = rot
+					vxDirs = map[string]string{}
+					shapes := []vxShape{shape, shape, shape, shape}
+					c := vxCase{Shapes: shapes, Order: order, Sel: sel}
+					exp := vxRefBind(shapes, sel)
+					o := vxRunReal(&c)
+					n++
+					before := rep.NViolations()
+					st.check(&c, exp, o)
+					if rep.NViolations() > before {
+						rep.Note(fmt.Sprintf("bus family %s: entry names %s; chips in enumeration order %v of %v", fam, vxPattern(sel.Pattern), order, []string{rot[0].Full, rot[1].Full, rot[2].Full, rot[3].Full}))
+					}
+					if n == 7 {
+						rep.Sample(map[string]any{"family": fam, "platform": vxPattern(sel.Pattern), "order": order, "expected": exp, "observed": o.String()})
+					}
+				}
+			}
+		}
+	}
+	vxChipDefs = saved
+	rep.Evaluations = n
+	rep.AddDistinct(n)
+	rep.Note("bus families: 4 chips of one driver differing in bus number/address (scsi, hid, isa, pci, acpi+virtual); each chip named by its full lm-sensors name (plain and ^anchored$), sensor index 1..3, fan by index / rpmChannel, all 24 enumeration orders")
 }
